@@ -256,7 +256,7 @@ class C18(Lab):
         kp = st.one_of(st.floats(0, 1e6), st.sampled_from([0.0, 60.0, 120.0, 200.0]))
         press = st.tuples(volt, vcc, st.one_of(st.none(), kp), volt, st.booleans(), st.lists(st.tuples(kp, st.floats(1e-5, 5.0)), max_size=3)).map(
             lambda t: {"k": "pressure", "v": fx(t[0]), "vcc": t[1], "cal": None if t[2] is None else fx(t[2]), "vcal": fx(t[3]), "same": t[4],
-                       "recal": [[fx(a), fx(b)] for a, b in t[5]]})
+                       "recal": [[fx(a), fx(b)] for a, b in t[5]], "vcc2": [None, 3.3, 12.0, 0.5][len(t[5])] if t[2] is None else None})
         return st.one_of(triple, triple, chain, sonar, press)
 
     def enumerate_cases(self, tier):
@@ -374,6 +374,18 @@ class C18(Lab):
                 raise Violation("C18/pressure/formula", f"pressure at {v!r} V, Vcc={vcc!r} is {p!r}, 250*V/Vcc-25 = {float(want)!r}; case: {case}")
         elif not math.isfinite(p):
             raise Violation("C18/pressure/not-finite", f"pressure={p!r} at {v!r} V, Vcc={vcc!r}; case: {case}")
+        if case.get("vcc2") is not None and case["cal"] is None:
+            # voltage_in is a plain public attribute: a later assignment is the supply voltage from then on
+            vcc2 = case["vcc2"]
+            try:
+                s.voltage_in = vcc2
+                p5 = s.pressure
+            except Exception as e:  # noqa
+                raise exc_violation("C18", e, f"pressure after changing voltage_in; case: {case}")
+            if vcc2 != 0 and v >= 1e-5:
+                want = 250 * Fraction(v) / Fraction(vcc2) - 25
+                if abs(Fraction(p5) - want) > Fraction(1, 10**12) * (abs(want) + 250 * Fraction(v) / Fraction(vcc2) + 25):
+                    raise Violation("C18/pressure/formula-after-reconfig", f"voltage_in changed from {vcc!r} to {vcc2!r}: pressure at {v!r} V is {p5!r}, 250*V/Vcc-25 = {float(want)!r}; case: {case}")
         nt = False
         if case["cal"] is not None:
             known = unfx(case["cal"])
